@@ -358,13 +358,39 @@ def run(prog, rep):
             return numeric(e.operand)
         return False
     for k_, v_ in zip(lambdas_expr.keys, lambdas_expr.values):
-        lam = [x for x in ast.walk(v_) if isinstance(x, ast.Lambda)]
+        lam = [x.body for x in ast.walk(v_) if isinstance(x, ast.Lambda)]
+        if not lam:
+            # a named predicate (module-level function or static method) instead of an inline lambda
+            pred = v_.elts[0] if isinstance(v_, (ast.Tuple, ast.List)) and v_.elts else v_
+            fdef = None
+            if isinstance(pred, ast.Name):
+                fdef = lmod.functions.get(pred.id) or labels.methods.get(pred.id)
+            elif isinstance(pred, ast.Attribute):
+                fdef = labels.methods.get(pred.attr)
+            if fdef is not None:
+                lam = [ast.Module(body=list(fdef.body), type_ignores=[])]
         if not lam or not isinstance(k_, ast.Constant):
-            raise AnalysisError('Labels.LAMBDA_VALIDATORS: entry is not (lambda, description)')
-        cmps = [c for c in ast.walk(lam[0].body) if isinstance(c, ast.Compare) and any(isinstance(o, (ast.Lt, ast.LtE, ast.Gt, ast.GtE)) for o in c.ops)]
+            raise AnalysisError('Labels.LAMBDA_VALIDATORS: entry is not (predicate, description)')
+        # numeric temporaries of a named predicate (lo = int(...)) count as numbers
+        num_locals = set()
+        for a_ in ast.walk(lam[0]):
+            if isinstance(a_, ast.Assign) and numeric(a_.value):
+                num_locals |= {t.id for t in a_.targets if isinstance(t, ast.Name)}
+            if isinstance(a_, ast.Assign) and isinstance(a_.targets[0], ast.Tuple) and isinstance(a_.value, (ast.Tuple, ast.GeneratorExp, ast.ListComp, ast.Call)):
+                vals_ = a_.value.elts if isinstance(a_.value, ast.Tuple) else None
+                if vals_ and all(numeric(x) for x in vals_):
+                    num_locals |= {t.id for t in a_.targets[0].elts if isinstance(t, ast.Name)}
+                elif isinstance(a_.value, (ast.GeneratorExp, ast.ListComp)) and numeric(a_.value.elt):
+                    num_locals |= {t.id for t in a_.targets[0].elts if isinstance(t, ast.Name)}
+                elif isinstance(a_.value, ast.Call) and isinstance(a_.value.func, ast.Name) and a_.value.func.id == 'map' and a_.value.args and \
+                        isinstance(a_.value.args[0], ast.Name) and a_.value.args[0].id in ('int', 'float'):
+                    num_locals |= {t.id for t in a_.targets[0].elts if isinstance(t, ast.Name)}
+        consts_num = {n_ for n_, e_ in lmod.assigns.items() if isinstance(e_, ast.Constant) and isinstance(e_.value, (int, float)) and not isinstance(e_.value, bool)}
+        consts_num |= {n_ for n_, e_ in lmod.assigns.items() if isinstance(e_, ast.BinOp) and numeric(e_)}
+        cmps = [c for c in ast.walk(lam[0]) if isinstance(c, ast.Compare) and any(isinstance(o, (ast.Lt, ast.LtE, ast.Gt, ast.GtE)) for o in c.ops)]
         rep.instance('R6', f'LAMBDA_VALIDATORS[{k_.value!r}]: {len(cmps)} ordering comparison(s)')
         for c in cmps:
-            bad = [o for o in [c.left] + c.comparators if not numeric(o)]
+            bad = [o for o in [c.left] + c.comparators if not (numeric(o) or (isinstance(o, ast.Name) and o.id in (num_locals | consts_num)))]
             if bad:
                 rep.violation('R6', loc(lmod, c), 'Labels.LAMBDA_VALIDATORS', f'{k_.value}: orders {norm(bad[0], 50)}',
                               f'the range validator of {k_.value!r} orders {norm(bad[0], 50)}, which is text, not a number: text is ordered '
